@@ -40,11 +40,18 @@ impl Lockfile {
         // See if this process already holds the lock before opening the file:  closing any
         // descriptor for a file releases every fcntl lock the process holds on that file, so a
         // refused attempt must not open (and then close) one.
-        if let Ok(metadata) = std::fs::metadata(path.as_ref()) {
-            for (dev, ino) in lock_table.iter() {
-                if *dev == metadata.dev() && *ino == metadata.ino() {
-                    return Ok(None);
+        match std::fs::metadata(path.as_ref()) {
+            Ok(metadata) => {
+                for (dev, ino) in lock_table.iter() {
+                    if *dev == metadata.dev() && *ino == metadata.ino() {
+                        return Ok(None);
+                    }
                 }
+            }
+            // A lock file that does not exist yet is held by no one.
+            Err(err) if err.kind() == std::io::ErrorKind::NotFound => {}
+            Err(err) => {
+                return Err(err);
             }
         }
         // Open the lock.  It doesn't matter if the lock file already exists.
